@@ -161,7 +161,7 @@ type castCase struct {
 
 var actorPool = []string{"alice", "bob", "carol", "dave", "eve", "zoé", "node", "srv_1", "w", "Porch"}
 var rolePool = []string{"doctor", "nurse", "road", "light", "kv", "client", "x1", "boss"}
-var actionPool = []string{"cure", "run", "red", "green", "up", "down", "a1", "go_on", "ping"}
+var actionPool = []string{"cure", "run", "red", "green", "up", "down", "a1", "go_on", "ping", "flush", "stats", "push", "pus", "hash", "sh", "s", "ssh"}
 var varPool = []string{"patient", "road", "port", "a", "b", "X_1", "mode", "_u", "target", "i", "HOME", "TMPDIR"}
 
 const valChars = "abcdefghijklmnopqrstuvwxyzABCDEFGHIJKLMNOPQRSTUVWXYZ0123456789_./:,+@%=-"
